@@ -529,8 +529,14 @@ def r9(c):
         ag = [s for i, s in q.aggs_in(fx, reg, FF)]
         ok = len(ag) == 1 and ag[0]['rv']['variant'] == tgt
         if ok:
-            s = q.sem(fx, ag[0]['rv']['a'][0])
-            ok = q.sem_is_name(fx, s, 'function') and (':' + v) in ''.join(s.proj)
+            # the payload is the one of the matched variant (an or-pattern arm binds it from either variant it covers)
+            alts = q.sem_alts(fx, ag[0]['rv']['a'][0])
+            def src(s_):
+                if not q.sem_is_name(fx, s_, 'function'):
+                    return None
+                m_ = [x for x in want if (':' + x + '.') in ''.join(p + '.' for p in s_.proj)]
+                return m_[0] if len(m_) == 1 else None
+            ok = bool(alts) and all(src(s_) is not None and want[src(s_)] == tgt for s_ in alts) and any(src(s_) == v for s_ in alts)
         c.ob('format_ex/%s' % v, ok, 'format_ex maps FunctionField::%s(x) to %s(x)' % (v, tgt), '', loc_of(fx))
     fg2 = one(fx.calls(FORMAT_GENERIC), 'format_generic in format_ex')
     okf = not args_named(fx, fg2, {0: 'self', 1: 'header', 3: 'ex', 4: 'decode_level'})
